@@ -138,6 +138,21 @@ pub(crate) fn sym_input<const N: usize>() -> (Vec<char>, usize) {
     (v, len)
 }
 
+/// Symbolic text of at most N chars held in a stack array (cheaper for CBMC
+/// than a heap Vec when the code under test indexes it symbolically).
+pub(crate) fn sym_arr<const N: usize>() -> ([char; N], usize) {
+    let len: usize = kani::any();
+    kani::assume(len <= N);
+    let mut a = ['\0'; N];
+    let mut i = 0;
+    while i < N {
+        let c: char = kani::any();
+        a[i] = c;
+        i += 1;
+    }
+    (a, len)
+}
+
 /// Symbolic haystack restricted to ASCII.
 pub(crate) fn sym_input_ascii<const N: usize>() -> (Vec<char>, usize) {
     let len: usize = kani::any();
